@@ -156,3 +156,31 @@ func TestC16KeysPrefix(t *testing.T) {
 		t.Logf("note: Delete of a missing key returns nil on localfs (gcs returns an error): DeleteBundle's 'until first failure' loop relies on an error")
 	}
 }
+
+// C01 / C17: random access past the end of an object, at an offset that still falls inside the index range of the last
+// (partial) leaf: the answer must be "0 bytes" (EOF), not a panic in the process serving the mount.
+func TestC01ReadAtPastEndInsideLastLeaf(t *testing.T) {
+	fs, err := cafs.New(cafs.LeafSize(64), cafs.Backend(newMem("blob")))
+	if err != nil {
+		t.Fatal(err)
+	}
+	data := bytes.Repeat([]byte("y"), 100) // leaves of 64 and 36 bytes
+	res, err := fs.Put(context.Background(), chunked{bytes.NewReader(data), 16})
+	if err != nil {
+		t.Fatal(err)
+	}
+	rd, err := fs.GetAt(context.Background(), res.Key)
+	if err != nil {
+		t.Fatal(err)
+	}
+	p, _ := inTime(t, 5*time.Second, "ReadAt(off=110)", func() {
+		buf := make([]byte, 10)
+		n, e := rd.ReadAt(buf, 110)
+		if n != 0 {
+			t.Errorf("ReadAt past the end returned %d bytes (err=%v)", n, e)
+		}
+	})
+	if p != nil {
+		t.Errorf("FINDING C01: ReadAt at offset 110 of a 100-byte object (leaf size 64) panics: %v", p)
+	}
+}
